@@ -129,7 +129,8 @@ def route(tokeniser: Any) -> list[Route]:
             else:
                 # Flow rules that need iteration and add()
                 for adding in handler(tokeniser):
-                    flow_nlri.add(adding)
+                    if flow_nlri.add(adding) is False:
+                        raise ValueError(f'flow route: {command} {adding} can not be part of this route (IPv4 and IPv6 do not mix)')
         elif target == ActionTarget.ATTRIBUTE:
             handler = cast(Callable[[Any], Any], ParseFlow.known[command])
             attributes.add(handler(tokeniser))
@@ -144,6 +145,8 @@ def route(tokeniser: Any) -> list[Route]:
             pass  # yes nothing to do !
         else:
             raise ValueError(f'flow: unknown command "{command}"')
+
+    flow_nlri.settle_family()
 
     # Recreate NLRI with correct SAFI if RD is present
     # (avoids SAFI mutation which is incompatible with class-level SAFI)
